@@ -15,6 +15,10 @@ DPKG=$(python3 -c "import json;print(json.load(open('$SRC/meta.json')).get('demo
 DFEAT=$(python3 -c "import json;print(json.load(open('$SRC/meta.json')).get('demo_features',''))")
 # convention: demo.rs is an integration test placed at <demo_crate>/tests/seed_demo.rs
 DEMO_CMD="mkdir -p $DCRATE/tests && cp $SRC/demo.rs $DCRATE/tests/seed_demo.rs && timeout 3000 cargo test --offline -p $DPKG $DFEAT --test seed_demo"
+# alternative convention: a standalone demo crate (for changes in curves/*, which have no offline test workspace)
+if [ -d "$SRC/demo" ]; then
+  DEMO_CMD="rm -rf seed_demo_crate && cp -r $SRC/demo seed_demo_crate && cp /repo/Cargo.lock seed_demo_crate/ && cd seed_demo_crate && timeout 3000 cargo run --offline"
+fi
 log=/tmp/seed/confirm-$ID.log; : > $log
 echo "## demo on clean tree: $DEMO_CMD" >> $log
 ( eval "$DEMO_CMD" ) >> $log 2>&1; CLEAN_RC=$?
@@ -30,7 +34,7 @@ echo "## check" >> $log
 cat /tmp/seed/confirm-$ID.check >> $log
 mkdir -p /verif/seeded/$ID
 cp $SRC/patch.diff /verif/seeded/$ID/patch.diff
-cp $SRC/demo.rs /verif/seeded/$ID/demo.rs 2>/dev/null
+cp $SRC/demo.rs /verif/seeded/$ID/demo.rs 2>/dev/null; [ -d "$SRC/demo" ] && rsync -a --exclude target --exclude Cargo.lock $SRC/demo/ /verif/seeded/$ID/demo/
 python3 - <<PY
 import json
 m=json.load(open("$SRC/meta.json"))
